@@ -22,6 +22,7 @@ func main() {
 	n := fs.Int("n", 1000, "number of cases / histories")
 	out := fs.String("out", "", "output directory")
 	replay := fs.String("replay", "", "replay a history file instead of generating")
+	blocks := fs.Int("blocks", 12, "blocks per history")
 	repo := fs.String("repo", "/repo", "path of the repository (translator)")
 	must(fs.Parse(os.Args[2:]))
 	if *out == "" {
@@ -32,6 +33,8 @@ func main() {
 	switch profile {
 	case "gen":
 		runGen(*out, *repo)
+	case "aol":
+		runAol(*seed, *n, *out, *replay, *blocks)
 	case "compkey":
 		runCompkey(*seed, *n, *out, *replay)
 	default:
